@@ -182,6 +182,45 @@ def check(res, tier):
         if rr.cls != "ok" or rr.stdout != exp:
             res.violation("program:" + cfg.name(), "compiled text operations disagree with the code-point view",
                           {"program": prog, "expected_stdout": exp, "implementation": rr.as_dict(), "config": cfg.name()})
+    # ---- library iteration: Duden/TextIterator keeps byte pointers into the text and answers in code points
+    #      (index, current letter, letters left / done, rest, text so far) at every position of a walk; DDP.Duden.iterWalk is the code-point view
+    from . import C17 as _c17
+    itcases = []
+    for _ in range(6 if not full else 60):
+        _c17.iter_cases(rng, lambda op, req, src, show, unchanged=None, head="C": itcases.append((req, src, show)))
+    for combo in itertools.product(CORE, repeat=2):
+        t = list(combo) + [0x61]
+        itcases.append(("duden textiter %s" % _c17.enc_ints(t), None, _c17.show_iter))
+    itans = corr.run_lines(model, [c[0] for c in itcases])
+    itprog, itexp = _c17.HEAD_C, ""
+    for (req, src, show), ans in zip(itcases, itans):
+        if src is None:
+            holder = []
+            cps = [int(x) for x in req.split()[-1].split(",")]
+
+            class _R:
+                def __init__(self, seq):
+                    self.seq = list(seq)
+
+                def below(self, n):
+                    return self.seq.pop(0)
+            _c17.iter_cases(_R([len(cps) - 1] + [_c17.ITER_CHARS.index(c) if c in _c17.ITER_CHARS else 0 for c in cps]),
+                            lambda op, rq, sr, sh, unchanged=None, head="C": holder.append((rq, sr)))
+            if holder[0][0] != req:
+                continue
+            src = holder[0][1]
+        itprog += "Wenn wahr, dann:\n" + "".join("\t" + ln + "\n" for ln in src.rstrip("\n").split("\n"))
+        itexp += show(ans)
+    for cfg in ([pipeline.Config(opt=1)] if not full else [pipeline.Config(opt=0), pipeline.Config(opt=2), pipeline.Config(opt=1, asan=True)]):
+        rr = pipeline.compile_run(ddp, {"main.ddp": itprog}, cfg)
+        res.evaluations += len(itcases)
+        if rr.cls != "ok" or rr.stdout != itexp:
+            got, want = rr.stdout.split("\n"), itexp.split("\n")
+            first = next((i for i, (x, y) in enumerate(zip(got + [""], want + [""])) if x != y), 0)
+            res.violation("textiterator:" + cfg.name(), "a walk with Duden/TextIterator disagrees with the code-point view (%s): line %d is %r, the code-point view gives %r" % (
+                rr.cls, first, got[first] if first < len(got) else None, want[first] if first < len(want) else None),
+                {"program": itprog, "expected_stdout": itexp, "implementation": rr.as_dict(), "config": cfg.name()})
+    res.extra["textiterator_walks"] = len(itcases)
     res.extra.update({"history_queries": nhist, "expressions": len(exprs), "scalar_values": len(scal), "scalar_step": step,
                       "operation_histories_seen": len(opsseen), "disagreements": mism})
     res.exhaustive = True
